@@ -67,7 +67,7 @@ func init() {
 func init() {
 	registerProperty(&Property{
 		ID:    "C03",
-		Rules: []string{"visit", "containers", "ref-clear", "ref-store", "opts-copy-complete"},
+		Rules: []string{"visit", "containers", "ref-clear", "ref-store", "opts-copy-complete", "cut-check"},
 		Explanation: "Decides the per-site disciplines 'only cycle cut-points remain' rests on. visit: every access path from Schema to a nested Schema (enumerated from the types, so a new schema-bearing field adds an obligation) is passed to the schema expander and the dereferenced result stored back at the same path. containers: every holder of refable elements (Swagger, PathItem, Operation, Parameter, Response; positions enumerated from the types) is handed to the matching expander, and by-value copies are written back. ref-clear (go/cfg must-analysis): every path from a completed dereference to a successful return stores the zero Ref into the holder. ref-store: every other store into a schema's Ref is a rewrite of a normalised reference against the root context (basePath, rootID) - or the normalised reference itself under AbsoluteCircularRef - and is control-dependent on isCircular having returned true, on skip-schemas mode, or on the empty-root-ref guard.",
 		NotCovered:  "that a kept $ref actually resolves to a node on a cycle; that denormalizeRef/rebase compute the right relative form; determinism of the output beyond C06's rules",
 	})
@@ -76,7 +76,7 @@ func init() {
 func init() {
 	registerProperty(&Property{
 		ID:    "C04",
-		Rules: []string{"cut-check", "nilres", "no-panic-path", "ptr-fill-guard"},
+		Rules: []string{"cut-check", "nilres", "no-panic-path", "ptr-fill-guard", "typed-nil-guard"},
 		Explanation: "Termination over all graphs is not decidable here; decided are the mechanism's necessary conditions. cut-check: every cyclic SCC of the package's static call graph is classified call site by call site as structural descent (argument strictly below the callee's parameter, parent stack passed unchanged) or reference following (on every path to the recursive call isCircular(k, base, parentRefs...) returned false for a normalised k, and the call receives append(parentRefs, k.String()) for that same k); recursion outside the family, or a cycle of pass-through calls, is a violation; isCircular uses one normalised key for memo lookup, stack comparison and memo store. nilres: a nil *Schema result implies a provably non-nil error, and results are dereferenced only after a plain err != nil return or under an explicit != nil guard. no-panic-path: the panic-capable constructs (Must*, panic, unchecked type assertions, unguarded index/slice expressions, stores into possibly-nil maps) reachable from the exported Expand*/Resolve* entry points equal an audited table.",
 		NotCovered:  "that the loop variant is bounded (id-driven base path growth makes canonical keys unbounded - invisible structurally), stack depth, work bounds, panics inside dependencies",
 	})
@@ -85,7 +85,7 @@ func init() {
 func init() {
 	registerProperty(&Property{
 		ID:    "C08",
-		Rules: []string{"errflow", "single-decision", "nilres", "ref-store", "continue-honoured", "ptr-fill-guard", "opts-copy-complete"},
+		Rules: []string{"errflow", "single-decision", "nilres", "ref-store", "continue-honoured", "ptr-fill-guard", "opts-copy-complete", "lookup-table"},
 		Explanation: "The error-discipline template filled from the repository. errflow: in every function reachable from an exported Expand*/Resolve* entry point, every call that can fail (package-internal error-returning functions, the document loader called through its field, DynamicJSONToStruct, Pointer.Get, json.Unmarshal, jsonreference.New) has its error returned directly, or tested by the very next statement with `err != nil` / the stop predicate and the same value returned on that branch, or tested with `err == nil`; blank assignment, a dropped result, an intervening overwrite, a check on another variable, or returning nil in the error branch are violations; two audited exceptions are keyed by caller:callee#n with a reason. single-decision: ContinueOnError is read in exactly one function, a predicate over the error whose body answers 'stop' only under err != nil && !ContinueOnError and does so first. nilres and ref-store (shared with C04/C03) make continuing safe and leave a failed $ref verbatim.",
 		NotCovered:  "that every unresolvable target produces an error inside the dependencies; spurious errors on well-formed input (value-level); that everything not depending on a failed $ref is expanded as it would have been otherwise",
 	})
@@ -94,13 +94,13 @@ func init() {
 func init() {
 	registerProperty(&Property{
 		ID:    "C02",
-		Rules: []string{"thread-args", "switch-on-follow", "ref-store", "opts-copy-complete", "loader-shares-state"},
+		Rules: []string{"thread-args", "switch-on-follow", "ref-store", "opts-copy-complete", "loader-shares-state", "entry-wiring"},
 		Explanation: "Bisimilarity is a relation between run-time graphs and is not decided. Decided are the threading disciplines behind 'a $ref is always interpreted relative to the document that textually contains it': at every call between expander family members (found by role) the base-path argument derives only from the caller's own base path, from id re-scoping (setSchemaID), from updateBasePath for the resolver just created, or from RemoteURI() of the normalised ref just followed, and the loader argument only from the caller's loader or from transitiveResolver(current base, the $ref being followed) (thread-args); after a followed $ref, whatever is expanded next receives the transitive resolver and the updated base (switch-on-follow); kept refs are rewritten against the root frame (ref-store).",
 		NotCovered:  "that normalizeURI, transitiveResolver's prefix test or resolveRef's root selection compute the right document (values) - in particular the wrong-document resolutions on multi-hop chains the property text mentions are value-level and invisible to these rules; map iteration order effects",
 	})
 	registerProperty(&Property{
 		ID:    "C09",
-		Rules: []string{"skip-shape", "containers", "ref-clear", "ref-store", "opts-copy-complete"},
+		Rules: []string{"skip-shape", "containers", "ref-clear", "ref-store", "opts-copy-complete", "switch-on-follow", "thread-args", "entry-wiring"},
 		Explanation: "Decides the shape of skip-schemas mode: in the schema expander the statements executed under SkipSchemas call nothing that resolves references, change nothing but the schema's Ref and return the target itself; that Ref store is a root-frame rewrite of a normalised reference (ref-store). In ExpandSpec only the definitions loop is control-dependent on !SkipSchemas; parameters, responses and path items are expanded unconditionally, completely dereferenced and cleared (containers, ref-clear), and the schema below a dereferenced parameter/response is still handed to the schema expander so nested refs are rebased.",
 		NotCovered:  "that the rebased string designates the same target; that a later full expansion gives the same outcome as a direct one",
 	})
@@ -145,7 +145,7 @@ func init() {
 	})
 	registerProperty(&Property{
 		ID:    "C05",
-		Rules: []string{"resolve-pure", "root-readonly", "errflow", "resolve-strict"},
+		Rules: []string{"resolve-pure", "root-readonly", "errflow", "resolve-strict", "typed-nil-guard", "lookup-table"},
 		Explanation: "Decided: no Resolve* entry point reaches an expander or the chain dereference, so nested $refs are not followed (resolve-pure); root and cached documents flow only to nil tests, jsonpointer.Pointer.Get, the data argument of swag.DynamicJSONToStruct, cache.Set and returns of the loading method - never the base of a store, a type assertion or a decode target - and the result reaches the caller only through DynamicJSONToStruct, i.e. a deep copy (root-readonly); every error from load, Pointer.Get and DynamicJSONToStruct reaches the caller, so a reference that designates nothing cannot yield a zero value with a nil error through a swallowed error (errflow).",
 		NotCovered:  "that the URI/pointer arithmetic designates the right node; pointer escape decoding (jsonpointer); equality of the three ways of supplying the root (the typed-versus-generic half is C15's rule)",
 	})
@@ -154,7 +154,7 @@ func init() {
 func init() {
 	registerProperty(&Property{
 		ID:    "C07",
-		Rules: []string{"codec-no-panic", "bounded-recursion", "encoder-constants-decodable"},
+		Rules: []string{"codec-no-panic", "bounded-recursion", "encoder-constants-decodable", "total-order", "map-order"},
 		Explanation: "Decides the totality half structurally. codec-no-panic: in every function reachable from any UnmarshalJSON, MarshalJSON, GobEncode, GobDecode, fromMap or JSONLookup method (static callees plus sort.Interface methods) there is no panic-capable construct: no Must*/panic call, no single-result type assertion outside a type switch, every index on the input bytes is dominated by a length guard that implies it is in range, every other index/slice expression is bounded by its loop, and every store into a field map is dominated by the nil-check-and-make idiom or targets a freshly made map. bounded-recursion: no codec method lies on a static call cycle, and none hands its own whole input (or receiver) back to encoding/json at a type whose method set resolves to that very method; recursion therefore only goes through encoding/json on strictly nested values, bounded by its nesting limit.",
 		NotCovered:  "the fixed-point law decode.encode.decode.encode = decode.encode (value-level; e.g. \"items\": [] -> null is not detected); panics or hangs inside dependencies; stack depth of encoding/json itself",
 	})
